@@ -673,6 +673,39 @@ def marker_slots_scope():
         fail = _check_results(results, {"file": f"HTML whose title, meta names/contents, heading, attribute names/values, link and table cells are {word!r}"})
         if fail:
             return fail, n
+    # ---- e-mail (RFC 822): header values, display names, body, attachment name / bytes
+    from email.message import EmailMessage
+    from sharepoint2text.parsing.extractors.mail.eml_email_extractor import read_eml_format_mail
+    for word in MARKER_TEXTS:
+        msg = EmailMessage()
+        msg["From"] = f"{word} <{word}@example.invalid>"
+        msg["To"] = f"{word} <to@example.invalid>"
+        msg["Cc"] = f"_type <{word}@example.invalid>"
+        msg["Subject"] = word
+        msg["Message-ID"] = f"<{word}@example.invalid>"
+        msg.set_content(word)
+        msg.add_attachment(word.encode(), maintype="application", subtype="octet-stream", filename=word)
+        try:
+            results = list(read_eml_format_mail(io.BytesIO(msg.as_bytes()), word + ".eml"))
+        except Exception:  # noqa
+            continue
+        n += 1
+        fail = _check_results(results, {"file": f".eml whose names, addresses, subject, body and attachment name are {word!r}"})
+        if fail:
+            return fail, n
+    # ---- RTF: text, info group, font / style names, bookmark, field
+    from sharepoint2text.parsing.extractors.ms_legacy.rtf_extractor import read_rtf
+    for word in MARKER_TEXTS:
+        doc = ("{\\rtf1\\ansi{\\fonttbl{\\f0 " + word + ";}}{\\stylesheet{\\s0 " + word + ";}}{\\info{\\title " + word + "}{\\author " + word + "}{\\keywords " + word + "}}"
+               "{\\*\\bkmkstart " + word + "}" + word + "{\\*\\bkmkend " + word + "}\\par {\\field{\\*\\fldinst HYPERLINK \"" + word + "\"}{\\fldrslt " + word + "}}\\par}")
+        try:
+            results = list(read_rtf(io.BytesIO(doc.encode("ascii")), word + ".rtf"))
+        except Exception:  # noqa
+            continue
+        n += 1
+        fail = _check_results(results, {"file": f"RTF whose text, info fields, font / style names, bookmark and hyperlink are {word!r}"})
+        if fail:
+            return fail, n
     # ---- plain text / CSV
     from sharepoint2text.parsing.extractors.plain_extractor import read_plain_text
     for word in MARKER_TEXTS:
@@ -1003,7 +1036,7 @@ def run_scope(name):
     """-> (failure or None, description of the bound)."""
     if name == "marker-slots":
         r, n = marker_slots_scope()
-        return r, f"{n} documents (XLSX via openpyxl, ODS, HTML, text/CSV) whose every author-controlled string slot holds a word of {MARKER_TEXTS!r}"
+        return r, f"{n} documents (XLSX via openpyxl, ODS, HTML, e-mail, RTF, text/CSV) whose every author-controlled string slot holds a word of {MARKER_TEXTS!r}"
     if name == "function-differential":
         r, n = function_differential_scope()
         return r, f"{n} calls: _serialize_for_json / serialize_extraction on values of every kind (nested one level), _deserialize_value on 32 JSON documents x 42 hints, _deserialize_dataclass, deserialize_extraction, _unwrap_optional -- against the executable SER/DESER"
